@@ -96,7 +96,7 @@ func (t *Table) ToMarkdown() string {
 	// Header row
 	for j, cell := range t.Rows[0] {
 		sb.WriteString("| ")
-		sb.WriteString(strings.ReplaceAll(cell.Text, "\n", " "))
+		sb.WriteString(markdownCellText(cell.Text))
 		sb.WriteString(" ")
 		if j == len(t.Rows[0])-1 {
 			sb.WriteString("|")
@@ -117,7 +117,7 @@ func (t *Table) ToMarkdown() string {
 	for i := 1; i < len(t.Rows); i++ {
 		for j, cell := range t.Rows[i] {
 			sb.WriteString("| ")
-			sb.WriteString(strings.ReplaceAll(cell.Text, "\n", " "))
+			sb.WriteString(markdownCellText(cell.Text))
 			sb.WriteString(" ")
 			if j == len(t.Rows[i])-1 {
 				sb.WriteString("|")
@@ -127,6 +127,13 @@ func (t *Table) ToMarkdown() string {
 	}
 
 	return sb.String()
+}
+
+// markdownCellText prepares cell text for a pipe table: a line break would
+// end the row and an unescaped pipe would start a new cell.
+func markdownCellText(text string) string {
+	text = strings.ReplaceAll(text, "\n", " ")
+	return strings.ReplaceAll(text, "|", "\\|")
 }
 
 // ToCSV converts the table to CSV format
